@@ -17,7 +17,8 @@ func NewMixedNode(lex lexeme.LexEvent) *MixedNode {
 	n := MixedNode{
 		baseNode: newBaseNode(lex),
 	}
-	n.setJsonType(json.Guess(lex.Value()).JsonType())
+	// The lexeme of a type shortcut keeps the blanks that separate it from its annotation.
+	n.setJsonType(json.Guess(lex.Value().TrimSpaces()).JsonType())
 	return &n
 }
 
